@@ -104,6 +104,18 @@ theorem display_fuel_enough (σ : Store) (v : Value) (hv : Readable σ v) :
     Enough σ (datumOf σ v).size v :=
   enough_of_readableN σ _ v hv
 
+/-- `Readable` — defined by a computation that descends at most `σ.vecs.size` levels into
+vectors — is exactly the inductive predicate `ReadableI` (finite derivations: vectors nest to any
+depth, but not cyclically): by the pigeonhole principle, a chain of nested vectors longer than
+the number of cells contains a cycle. Likewise the datum does not depend on the level. -/
+theorem readable_iff_inductive (σ : Store) (v : Value) :
+    (Readable σ v ↔ ReadableI σ v) ∧
+      (∀ n, readableN σ n v = true → Readable σ v ∧ datumN σ n v = datumOf σ v) :=
+  ⟨readable_iff_readableI σ v, fun n h => ⟨readableN_size σ n v h, datumOf_eq_datumN σ n v h⟩⟩
+
+/-- a store whose only cell contains itself: its vector prints forever, and is not readable -/
+example : ¬ Readable { vecs := #[{ mutable := true, items := [.vec 0] }] } (.vec 0) := by decide
+
 section Example
 /- `Samples.value` = `(1 -1/2 #\a (x . y) #(#t ()))`, the vector in cell 1 of `Samples.store` -/
 example : Readable store value := by decide
@@ -276,6 +288,29 @@ example : ¬ equalV store (.pair (.sym "x") (.sym "y")) store (Value.ofList [.sy
   cases h with
   | pair _ h2 => cases h2
 end Example
+
+/-- EQUAL_VALUES_PRINT_THE_SAME (the converse). A value structurally equal to a readable one is
+readable, has the same datum and prints the same text. -/
+theorem equal_values_print_same (σ₁ σ₂ : Store) (v₁ v₂ : Value) (he : equalV σ₁ v₁ σ₂ v₂)
+    (h₁ : Readable σ₁ v₁) (f₁ f₂ : Nat) (hf₁ : (datumOf σ₁ v₁).size ≤ f₁)
+    (hf₂ : (datumOf σ₁ v₁).size ≤ f₂) :
+    Readable σ₂ v₂ ∧ datumOf σ₂ v₂ = datumOf σ₁ v₁ ∧
+      Prim.display σ₁ f₁ v₁ = Prim.display σ₂ f₂ v₂ := by
+  obtain ⟨h₂, e⟩ := equal_datumOf σ₁ σ₂ v₁ v₂ he h₁
+  refine ⟨h₂, e, ?_⟩
+  rw [display_is_show σ₁ v₁ f₁ h₁ hf₁, display_is_show σ₂ v₂ f₂ h₂ (by rw [e]; exact hf₂), e]
+
+/-- Both directions: readable values print the same text exactly when they are structurally
+equal. -/
+theorem display_eq_iff_equalV (σ₁ σ₂ : Store) (v₁ v₂ : Value) (h₁ : Readable σ₁ v₁)
+    (h₂ : Readable σ₂ v₂) (f₁ f₂ : Nat) (hf₁ : (datumOf σ₁ v₁).size ≤ f₁)
+    (hf₂ : (datumOf σ₂ v₂).size ≤ f₂) :
+    Prim.display σ₁ f₁ v₁ = Prim.display σ₂ f₂ v₂ ↔ equalV σ₁ v₁ σ₂ v₂ := by
+  constructor
+  · exact display_injective σ₁ σ₂ v₁ v₂ f₁ f₂ h₁ h₂ hf₁ hf₂
+  · intro he
+    have e := (equal_datumOf σ₁ σ₂ v₁ v₂ he h₁).2
+    exact (equal_values_print_same σ₁ σ₂ v₁ v₂ he h₁ f₁ f₂ hf₁ (by rw [← e]; exact hf₂)).2.2
 
 /-! ## 6. Nested structure is preserved -/
 
